@@ -429,6 +429,11 @@ def main(tier, seed, replay=None):
     except Exception as e:
         ck.obligation('helper correspondence executed', False, f'{type(e).__name__}: {e}', kind='correspondence')
     try:
+        import lookupcorr
+        lookupcorr.run(ck, tier)
+    except Exception as e:
+        ck.obligation('lookup-generator correspondence executed', False, f'{type(e).__name__}: {e}', kind='correspondence')
+    try:
         bulk_api(ck, dos, tier, lowered=True)
         bulk_api(ck, dos, tier, lowered=False)
         page_boundaries(ck)
@@ -436,5 +441,5 @@ def main(tier, seed, replay=None):
         import traceback
         ck.fail(f'bulk API run raised {type(e).__name__}: {e}', {'kind': 'bulk', 'traceback': traceback.format_exc()[-1500:]}, 'bulk-exception')
     ck.assumptions += ['keys are compared as Python str / SQLite TEXT with the same order (hex digests)',
-                       'the bulk-API part is differential testing against a dict and the single-key operations; the theorems cover the helpers']
+                       'the lookup generator is modelled (Lookup.lookup_bulk) and proved equal to the per-key lookup; the other bulk operations (pack/clean/import) are differential testing against a dict and the single-key operations']
     return ck.finish()
